@@ -139,6 +139,7 @@ func c11Funcs(t tableRow) bool {
 }
 
 func runC11(r *Run) {
+	r.NoSharedBigIntInLoop([]string{"consensus", "vm/embedded/implementation.", "vm/embedded/definition.", "common/types."}, "decoded or computed per-element numbers (weights, amounts) must be separate objects")
 	r.PureShapes([]string{"vm/embedded/implementation.getWeightedStakeAmount", "vm/embedded/implementation.getWeightedStake", "vm/embedded/implementation.getWeightedSentinel", "vm/embedded/implementation.getWeightedLiquidityStake", "vm/embedded/implementation.getWeightedLiquidityStakeAmount", "vm/embedded/implementation.computePillarRewardForEpoch"},
 		"the pro-rata weights and the per-pillar reward are computed by these helpers: a changed operand changes every share")
 	I := "vm/embedded/implementation."
